@@ -1265,6 +1265,11 @@ impl Group for C08Onchain {
     }
 }
 
+#[path = "c08_psbt.rs"]
+mod psbt;
+#[path = "c08_restart.rs"]
+mod restart;
+
 pub fn groups() -> Vec<Box<dyn Group>> {
-    vec![Box::new(C08Onchain)]
+    vec![Box::new(C08Onchain), Box::new(psbt::C08Psbt), Box::new(restart::C08FeeRestart)]
 }
